@@ -29,13 +29,26 @@ def build():
     return _built["bin"]
 
 
-def run(args, stdin, timeout=20):
+def run(args, stdin, timeout=20, failing_stdin=False, full_stdout=False):
     b = build()
     if b is None:
         return {"error": "build failed: " + _built.get("err", "")}
     data = stdin.encode("utf-8", "surrogateescape") if isinstance(stdin, str) else bytes(stdin)
     try:
-        p = subprocess.run([b] + list(args), input=data, capture_output=True, timeout=timeout)
+        if failing_stdin:
+            # a standard input whose every read FAILS (a directory: read(2) gives EISDIR): the run must report it (C16)
+            fd = os.open("/", os.O_RDONLY)
+            try:
+                p = subprocess.run([b] + list(args), stdin=fd, capture_output=True, timeout=timeout)
+            finally:
+                os.close(fd)
+        elif full_stdout:
+            # a standard output on which every write FAILS (/dev/full: ENOSPC): the run must report it (C16)
+            with open("/dev/full", "wb") as full:
+                p = subprocess.run([b] + list(args), input=data, stdout=full, stderr=subprocess.PIPE, timeout=timeout)
+            p.stdout = b""
+        else:
+            p = subprocess.run([b] + list(args), input=data, capture_output=True, timeout=timeout)
     except subprocess.TimeoutExpired:
         return {"timeout": True, "stdout": "", "stderr": "", "rc": None}
     return {"stdout": p.stdout.decode("utf-8", "replace"), "stderr": p.stderr.decode("utf-8", "replace")[-1500:],
@@ -131,7 +144,7 @@ def run_probe(probe):
         obs = run_endless(probe.get("args", []), probe["endless"], any("{FIFO}" in a for a in probe.get("args", [])))
     else:
         stdin = bytes.fromhex(probe["stdin_hex"]) if "stdin_hex" in probe else probe.get("stdin", "")
-        obs = run(probe.get("args", []), stdin)
+        obs = run(probe.get("args", []), stdin, failing_stdin=bool(probe.get("failing_stdin")), full_stdout=bool(probe.get("full_stdout")))
     if "error" in obs:
         return None, obs
     ok = True
